@@ -23,8 +23,8 @@ class ExtractError(Exception):
 # models were written.  A consistent renaming of the parameters and local variables of a function is not
 # a change of the program, so before a file is handed to a generator every function whose binder list
 # (parameters, `let` / `for` / simple closure binders, in order of appearance) is recorded in
-# tools/gen/binders.json and has the SAME LENGTH now is renamed back, binder by binder, to the recorded
-# names.  Any bijective, capture-free renaming yields an alpha-equivalent function, so whatever the
+# tools/gen/binders.json and has the same number of distinct names now gets its NEW names renamed back (in order
+# of first appearance) to the recorded names that disappeared.  Any bijective, capture-free renaming yields an alpha-equivalent function, so whatever the
 # generators then read is read off a program with the same meaning; when the renaming cannot be made
 # bijective and capture-free the text is left alone (and the generators' patterns decide).
 BINDERS_FILE = os.path.join(os.path.dirname(os.path.abspath(__file__)), "gen", "binders.json")
@@ -118,29 +118,51 @@ def canon(rel, src):
             continue
         item = src[a:b]
         cur, ref = binders_of(item), ref_all[name]
-        if len(cur) == len(ref) and cur != ref:
-            mp = {}
-            ok = True
-            for c_, r_ in zip(cur, ref):
-                if mp.setdefault(c_, r_) != r_:
-                    ok = False
-            if ok and len(set(mp.values())) == len(mp):
-                mp = {c_: r_ for c_, r_ in mp.items() if c_ != r_}
-                # capture: a new name must not already occur in the item as something that stays
-                others = set(re.findall(r"[A-Za-z_]\w*", item)) - set(mp)
-                if mp and not (set(mp.values()) & others):
-                    rx = re.compile(r"(?<![\.\w])(?<!::)(" + "|".join(map(re.escape, sorted(mp, key=len, reverse=True))) + r")(?!\w)(?!\s*::)")
-                    item = rx.sub(lambda m_: mp[m_.group(1)], item)
+        # names that are new in the current text are mapped, in order of first appearance, onto the recorded
+        # names that no longer occur; names that are still there keep their meaning (a mere reordering of
+        # statements renames nothing)
+        dedup = lambda xs: list(dict.fromkeys(xs))
+        new_names = [n for n in dedup(cur) if n not in set(ref)]
+        missing = [n for n in dedup(ref) if n not in set(cur)]
+        if new_names and len(new_names) == len(missing) and len(dedup(cur)) == len(dedup(ref)):
+            mp = dict(zip(new_names, missing))
+            # capture: a new name must not already occur in the item as something that stays
+            others = set(re.findall(r"[A-Za-z_]\w*", item)) - set(mp)
+            if not (set(mp.values()) & others):
+                rx = re.compile(r"(?<![\.\w])(?<!::)(" + "|".join(map(re.escape, sorted(mp, key=len, reverse=True))) + r")(?!\w)(?!\s*::)")
+                item = rx.sub(lambda m_: mp[m_.group(1)], item)
         pieces.append(src[last:a]); pieces.append(item); last = b
         done_until = b
     pieces.append(src[last:])
     return "".join(pieces)
 
 
+def strip_debug_asserts(src):
+    """`debug_assert*!( … );` statements carry no data for a translator (what they assert is executed by the
+    dev profile of the correspondence): removed from the text the generators read"""
+    out, i = [], 0
+    for m in re.finditer(r"\bdebug_assert(?:_eq|_ne)?!\s*\(", src):
+        if m.start() < i:
+            continue
+        depth, j = 1, m.end()
+        while j < len(src) and depth:
+            depth += src[j] == "("
+            depth -= src[j] == ")"
+            j += 1
+        k = j
+        while k < len(src) and src[k] in " \t":
+            k += 1
+        if k < len(src) and src[k] == ";":
+            out.append(src[i:m.start()])
+            i = k + 1
+    out.append(src[i:])
+    return "".join(out)
+
+
 def read(rel):
     with open(os.path.join(REPO, rel)) as f:
         text = f.read()
-    return canon(rel, text) if rel in CANON_FILES else text
+    return strip_debug_asserts(canon(rel, strip_comments(text))) if rel in CANON_FILES else text
 
 
 def record_binders():
